@@ -300,7 +300,7 @@ def rand_value(rng, hostile_p=0.6):
             v_["sub"] = rng.choice([True, "fmt"])   # a str subclass (also one whose str() / format() are not its text) is a string value
         return v_
     if r < hostile_p + 0.12:
-        v_ = HV(rng.choice(["h", "a&amp;b", "x y", "&lt;i&gt;", "50%", "q=1&r=2", ""]))
+        v_ = HV(rng.choice(["h", "a&amp;b", "x y", "&lt;i&gt;", "50%", "q=1&r=2", "", " lead", "trail ", "\ttab\t", "  ", "a  b"]))
         if rng.random() < 0.5:
             v_["shared"] = True   # one HTML() constant object used for many elements
         return v_
